@@ -14,7 +14,7 @@ GOENV = dict(GOFLAGS="-mod=mod", GOPROXY="off", GOSUMDB="off", GOTOOLCHAIN="loca
 
 def sh(cmd, cwd, timeout=1200):
     env = dict(os.environ); env.update(GOENV)
-    p = subprocess.run(cmd, shell=True, cwd=cwd, env=env, stdout=subprocess.PIPE, stderr=subprocess.STDOUT, text=True, timeout=timeout)
+    p = subprocess.run(cmd, shell=True, cwd=cwd, env=env, stdout=subprocess.PIPE, stderr=subprocess.STDOUT, text=True, errors="replace", timeout=timeout)
     return p.returncode, p.stdout
 
 def main():
@@ -72,7 +72,7 @@ def main():
         c = [os.path.join(V, "tools", "mutant_eval.py"), patch, "--skip-suite", "--jobs", "5"]
         if props:
             c += ["--props", props]
-        p = subprocess.run(c, stdout=subprocess.PIPE, stderr=subprocess.STDOUT, text=True)
+        p = subprocess.run(c, stdout=subprocess.PIPE, stderr=subprocess.STDOUT, text=True, errors="replace")
         print(p.stdout)
         try:
             s = json.loads(p.stdout.strip().splitlines()[-1])
